@@ -470,7 +470,7 @@ class MacroscopicCrossSectionCreator:
         reactions = BASIC_XS + TOTAL_XS
         if NUSIGF in reactions:
             reactions.remove(NUSIGF)
-            self.macros[NUSIGF] = computeMacroscopicGroupConstants(
+            groupConstants = computeMacroscopicGroupConstants(
                 FISSION_XS,
                 self.densities,
                 self.microLibrary,
@@ -478,15 +478,22 @@ class MacroscopicCrossSectionCreator:
                 libType=libType,
                 multConstant=NU,
             )
+            # None: nothing in this composition
+            if groupConstants is None:
+                groupConstants = np.zeros(self.ng)
+            self.macros[NUSIGF] = groupConstants
 
         for reaction in reactions:
-            self.macros[reaction] = computeMacroscopicGroupConstants(
+            groupConstants = computeMacroscopicGroupConstants(
                 reaction,
                 self.densities,
                 self.microLibrary,
                 self.xsSuffix,
                 libType=libType,
             )
+            if groupConstants is None:
+                groupConstants = np.zeros(self.ng)
+            self.macros[reaction] = groupConstants
 
     def _convertScatterMatrices(self, libType="micros"):
         """
